@@ -94,16 +94,21 @@ def describe(c):
     return d
 
 
+def H(x):
+    """hex of a bytes value; repr of anything else (a wrong *type* coming back must not break the report)"""
+    return x.hex() if isinstance(x, (bytes, bytearray)) else repr(x)
+
+
 def check_derive(G, c):
     alg, pw, eid = c["alg"], c["pw"], c["eid"]
     ku = G.fast.get_master_key(ALG[alg], pw)
     want = ref_master(alg, pw)
     if ku != want:
-        raise core.Failure("master-key:" + alg, "get_master_key(%s, password of %d octets) = %s, RFC 3414 A.2 gives %s" % (alg, len(pw), ku.hex(), want.hex()))
+        raise core.Failure("master-key:" + alg, "get_master_key(%s, password of %d octets) = %s, RFC 3414 A.2 gives %s" % (alg, len(pw), H(ku), want.hex()))
     kul = G.fast.get_localized_key(ALG[alg], ku, eid)
     wantl = ref_local(alg, want, eid)
     if kul != wantl:
-        raise core.Failure("localized-key:" + alg, "get_localized_key(%s, Ku, engine id of %d octets) = %s, expected %s" % (alg, len(eid), kul.hex(), wantl.hex()))
+        raise core.Failure("localized-key:" + alg, "get_localized_key(%s, Ku, engine id of %d octets) = %s, expected %s" % (alg, len(eid), H(kul), wantl.hex()))
     # the class-level helpers are the documented entry points
     K = {"md5": G.user.Md5Key, "sha1": G.user.Sha1Key}[alg]
     if K.get_master_key(pw) != want or K.get_localized_key(want, eid) != wantl:
@@ -207,6 +212,42 @@ def check_malformed(G, c, link):
         K = {"md5": U.Md5Key, "sha1": U.Sha1Key}[alg]
         ktv = {"password": U.KeyType.Password, "master": U.KeyType.Master, "localized": U.KeyType.Localized}[kt]
         key = b"k" * n
+        if flaw in ("priv_key_len", "priv_alg_code") and kt != "password":
+            # a privacy key given as master / localized key is aligned to the *auth* digest size by User() (documented:
+            # "truncates key if it is longer than desired, adds trailing zeroes otherwise"); the session must then encrypt
+            # under the key derived from the aligned value
+            PK = {"des": U.DesKey, "aes": U.Aes128Key}[c["priv"]]
+            akey = bytes(range(1, KS[alg] + 1))
+            pkey = bytes((7 * i + 3) & 0xFF for i in range(n))
+            try:
+                user = U.User("u", auth_key=K(akey, key_type=U.KeyType.Master), priv_key=PK(pkey, key_type=ktv))
+            except Exception as e:  # noqa: BLE001
+                raise core.Failure("aligned-priv-key-refused", "User(auth master %s, priv %s %s of %d octets) raised %r" % (alg, kt, c["priv"], n, e))
+            padded = (pkey + b"\0" * KS[alg])[:KS[alg]]
+            if user.priv_key.key != padded or user.get_priv_key() != padded:
+                raise core.Failure("priv-key-padding", "privacy %s key of %d octets beside a %s auth key: User holds %s, documented alignment gives %s"
+                                   % (kt, n, alg, H(user.get_priv_key()), padded.hex()))
+            cfgx = ag.Cfg("v3", user="u", engine_id=eid, auth=alg, priv=c["priv"], auth_kt="master", priv_kt=kt)
+            kula = ref_local(alg, akey, eid)
+            kulp = padded if kt == "localized" else ref_local(alg, padded, eid)
+            cfgx.kul_auth = lambda e: kula
+            cfgx.kul_priv = lambda e: kulp
+            s = G.sync.SnmpSession("127.0.0.1", port=link.port, user=user, engine_id=eid, timeout=0.05)
+            try:
+                s.get("1.3.6.1.2.1.1.1.0")
+            except TimeoutError:
+                pass
+            got = link.recv_all()
+            if len(got) != 1:
+                raise core.Failure("datagram-count", "%d datagrams" % len(got))
+            model = wire.SessionModel(cfgx)
+            try:
+                m = wire.check_structure(model, ("get", "1.3.6.1.2.1.1.1.0"), got[0])
+                wire.check_mac(model, m, got[0])
+                wire.check_priv(model, m)
+            except core.Failure as f:
+                raise core.Failure("aligned-priv-key-not-used:" + f.signature, "privacy %s key of %d octets (%s, auth %s): %s" % (kt, n, c["priv"], alg, f.message))
+            return "padded"
         if kt == "password":
             def mk():
                 s = G.sync.SnmpSession("127.0.0.1", port=link.port, user=U.User("u", auth_key=K(key, key_type=ktv)), engine_id=eid, timeout=0.05)
@@ -218,7 +259,7 @@ def check_malformed(G, c, link):
             ak = K(key, key_type=ktv)
             padded = (key + b"\0" * KS[alg])[:KS[alg]]
             if ak.key != padded:
-                raise core.Failure("key-padding", "%s(%d octets, %s).key = %s" % (K.__name__, n, kt, ak.key.hex()))
+                raise core.Failure("key-padding", "%s(%d octets, %s).key = %s" % (K.__name__, n, kt, H(ak.key)))
             cfgx = ag.Cfg("v3", user="u", engine_id=eid, auth=alg, auth_kt=kt)
             s = G.sync.SnmpSession("127.0.0.1", port=link.port, user=U.User("u", auth_key=ak), engine_id=eid, timeout=0.05)
             try:
